@@ -8,7 +8,8 @@
    performs them (a verif yield precedes each), and Count as the pure function of the word,
    with the [MxOrig | MxFixed] switch for the defect fixed by commit 8216f43.
    Part 2: a small-step model of threads doing Lock / TryLock / Unlock on one mutex
-   (sync.Mutex re-modelled from the Go source: modelled, not stepped against the runtime).
+   (sync.Mutex modelled from the Go source; stepped on every run against a generated copy of
+   the toolchain's Lock/lockSlow/Unlock/unlockSlow + the real TryLock, C17 stream family "mx").
 
    Definitions only; proofs are in proofs/MutexWordProofs.v. *)
 From Got Require Import Base.
@@ -83,8 +84,10 @@ Fixpoint mx_trylock_env (pc : mx_tlpc) (ws : list Z) : option bool * list Z :=
 
 (* ------------------------------------------------------------------ Part 2: threads on one mutex *)
 
-(* sync.Mutex (Go 1.23 sync/mutex.go: Lock, lockSlow, Unlock, unlockSlow) re-modelled, one step
-   per access of m.state / per semaphore call, plus loom's TryLock (the three steps of part 1).
+(* sync.Mutex (Go 1.23 sync/mutex.go = Go 1.26 internal/sync/mutex.go: Lock, lockSlow, Unlock,
+   unlockSlow) modelled, EXACTLY one step per access of m.state (atomic or plain read) / per
+   semaphore call, the local computation after an access belonging to its step (this granularity
+   is what vlib/c17mx.py steps against the source), plus loom's TryLock (the three steps of part 1).
    The word is kept as a record of its fields; [mx_enc] is its int32 value, and
    MutexWordProofs.mx_trylock_rec_refines shows that the record-level TryLock steps are exactly
    [mx_trylock_step] on the encoded word.
@@ -125,7 +128,8 @@ Inductive mx_pc :=
 | XT2                                       (* TryLock: load *)
 | XT3 (old : mx_w)                          (* TryLock: CAS(old, old|locked) *)
 | XU1                                       (* Unlock: atomic.AddInt32(&m.state, -mutexLocked) *)
-| XUSlow (old : mx_w)                       (* unlockSlow, normal mode: test, CAS(old, (old-1<<3)|woken) *)
+| XUSlow (old : mx_w)                       (* unlockSlow, normal mode: CAS(old, (old-1<<3)|woken) *)
+| XULoad                                    (* unlockSlow, after a failed CAS: old = m.state *)
 | XURel (handoff : bool)                    (* runtime_Semrelease(&m.sema, handoff, 1) *)
 | XDead.                                    (* throw("sync: inconsistent mutex state") / fatal *)
 
@@ -155,6 +159,18 @@ Definition mx_slow_new (awoke stv : bool) (old : mx_w) : mx_w :=
 Definition mx_mkth (pc : mx_pc) (h : bool) (todo : list mx_op) : mx_thread :=
   {| xpc := pc; xh := h; xtodo := todo |}.
 
+(* unlockSlow's loop test on the snapshot [old] (local, no access):
+   old>>mutexWaiterShift == 0 || old&(mutexLocked|mutexWoken|mutexStarving) != 0 -> return *)
+Definition mx_uslow_done (old : mx_w) : bool := (xn old =? 0) || xl old || xk old || xs old.
+
+(* lockSlow from a snapshot [old] that does not take the spin branch: the new word is computed
+   locally and the awoke/mutexWoken consistency test (throw) happens BEFORE the CAS access, i.e.
+   within the step of the access that produced [old] *)
+Definition mx_to_cas (t sp st : nat) (awoke stv : bool) (old : mx_w) (h : bool) (todo : list mx_op)
+  : mx_w * nat * mx_thread * mx_event :=
+  if awoke && negb (xk old) then (old, t, mx_mkth XDead h todo, XEPanic)
+  else (old, t, mx_mkth (XLCas sp st awoke stv old) h todo, XEInt).
+
 (* one step of a thread: new word, new token count, new thread, event *)
 Definition mx_step_th (r : mx_w) (t : nat) (th : mx_thread) : mx_w * nat * mx_thread * mx_event :=
   let h := xh th in let todo := xtodo th in
@@ -176,14 +192,13 @@ Definition mx_step_th (r : mx_w) (t : nat) (th : mx_thread) : mx_w * nat * mx_th
         if negb awoke && negb (xk r) && negb (xn r =? 0)
         then (r, t, mx_mkth (XLSpin (pred sp) st r) h todo, XEInt)
         else (r, t, mx_mkth (XLLoad (pred sp) st awoke stv) h todo, XEInt)
-      else (r, t, mx_mkth (XLCas sp st awoke stv r) h todo, XEInt)
+      else mx_to_cas t sp st awoke stv r h todo
   | XLSpin sp st old =>
       if mx_w_eqb r old
       then ({| xl := xl r; xk := true; xs := xs r; xn := xn r |}, t, mx_mkth (XLLoad sp st true false) h todo, XEInt)
       else (r, t, mx_mkth (XLLoad sp st false false) h todo, XEInt)
   | XLCas sp st awoke stv old =>
-      if awoke && negb (xk old) then (r, t, mx_mkth XDead h todo, XEPanic)
-      else if mx_w_eqb r old then
+      if mx_w_eqb r old then
         if negb (xl old) && negb (xs old)
         then (mx_slow_new awoke stv old, t, mx_mkth XIdle true todo, XEAcq 1)
         else (mx_slow_new awoke stv old, t, mx_mkth (XLSleep sp st stv) h todo, XEInt)
@@ -202,7 +217,7 @@ Definition mx_step_th (r : mx_w) (t : nat) (th : mx_thread) : mx_w * nat * mx_th
            CAS for an awoke thread, just doSpin and old = m.state), else the CAS *)
         if xl r && negb (sp =? 0)
         then (r, t, mx_mkth (XLLoad (pred sp) st true stv) h todo, XEInt)
-        else (r, t, mx_mkth (XLCas sp st true stv r) h todo, XEInt)
+        else mx_to_cas t sp st true stv r h todo
   | XLHand exit =>
       (* AddInt32(mutexLocked - 1<<mutexWaiterShift [- mutexStarving]) is field-wise only on a
          word with locked = 0, waiters >= 1 (and starving = 1 when it is subtracted) *)
@@ -224,12 +239,15 @@ Definition mx_step_th (r : mx_w) (t : nat) (th : mx_thread) : mx_w * nat * mx_th
         let r' := mx_set_l r false in
         if mx_is_zero r' then (r', t, mx_mkth XIdle false todo, XEUnlocked)
         else if xs r' then (r', t, mx_mkth (XURel true) false todo, XEUnlocked)
+        else if mx_uslow_done r' then (r', t, mx_mkth XIdle false todo, XEUnlocked)   (* unlockSlow returns at once *)
         else (r', t, mx_mkth (XUSlow r') false todo, XEUnlocked)
       else (r, t, mx_mkth XDead h todo, XEPanic)     (* fatal("sync: unlock of unlocked mutex") *)
   | XUSlow old =>
-      if (xn old =? 0) || xl old || xk old || xs old then (r, t, mx_mkth XIdle h todo, XERet)
-      else if mx_w_eqb r old
+      if mx_w_eqb r old
       then ({| xl := xl old; xk := true; xs := xs old; xn := pred (xn old) |}, t, mx_mkth (XURel false) h todo, XEInt)
+      else (r, t, mx_mkth XULoad h todo, XEInt)
+  | XULoad =>
+      if mx_uslow_done r then (r, t, mx_mkth XIdle h todo, XERet)
       else (r, t, mx_mkth (XUSlow r) h todo, XEInt)
   | XURel _ => (r, S t, mx_mkth XIdle h todo, XERet)
   | XDead => (r, t, th, XENone)
